@@ -37,7 +37,7 @@ class C04(framework.PropertyCheck):
                    'bodies are index-neutral (print, accumulate, timeframe)']
 
     def cases(self, rng, tier, n):
-        for _ in range(n):
+        for case_no in range(n):
             ntr = 1 if rng.random() < 0.6 else 2
             lens = [rng.randint(1, 7) for _ in range(ntr)]
             if ntr == 2 and lens[0] == lens[1]:
@@ -54,16 +54,18 @@ class C04(framework.PropertyCheck):
                     'body': rng.choice(['print', 'acc', 'timeframe', 'value'])}
             if rng.random() < 0.3:
                 case['limit'] = rng.randint(1, 2)
-            if rng.random() < 0.3:
+            if ntr == 1 and rng.random() < 0.2:
+                case['pad'] = rng.randint(1, 3)       # the file is longer; the trace has been trimmed to this length before the scans
+            if rng.random() < 0.4:
                 # the condition also reads a user variable; its name is drawn from the names the library's macro templates bind
                 # (count, find and whenever must treat the condition as the caller wrote it)
                 global _TS
                 if _TS is None:
                     from .c15 import template_symbols
                     _TS = sorted(set(template_symbols()) - {'acc', 'v', 'w', 'rd', 'isclk', 'k'}) or ['n']
-                v = rng.choice(_TS)
+                v = _TS[case_no % len(_TS)]          # every name in turn
                 sig = ('top.cnt' if ntr == 1 else f'{tids[0]}^top.cnt')
-                case['uservar'] = [v, rng.randint(0, 4)]
+                case['uservar'] = [v, rng.randint(1, 4)]
                 case['c'] = f'(|| (= {sig} {v}) (&& (> {v} 1) {c}))'
             yield case
 
@@ -78,9 +80,11 @@ class C04(framework.PropertyCheck):
     def _plan(self, case):
         steps = []
         for tid, n, s in zip(case['tids'], case['lens'], case['seeds']):
-            vf, _den = gen_trace.simple_vcd(random.Random(s), n, sigs=gen_expr.SIGS)
+            vf, _den = gen_trace.simple_vcd(random.Random(s), n + case.get('pad', 0), sigs=gen_expr.SIGS)
             steps.append(('loadvcd', tid, gen_trace.render(vf)))
         single = len(case['tids']) == 1
+        if case.get('pad'):
+            steps.append(('eval', 'eorg', f"(trim-trace 't0 {case['lens'][0] - 1})"))
         for d in (gen_expr.PRELUDE_SINGLE if single else gen_expr.prelude_multi(case['tids'])):
             steps.append(('eval', 'eorg', d))
         steps.append(('eval', 'eorg', '(define acc 0)'))
